@@ -72,6 +72,8 @@ def rate_mode(only, n):
                                "signatures": first_sigs, "needs": meta.get("needs")}
                 if meta.get("not_expected_to_be_caught"):
                     rates[name]["outside_the_quantifier"] = True
+                if meta.get("obsolete_on_current_tree"):
+                    rates[name]["obsolete_on_current_tree"] = True
                 print(name, f"{rates[name]['caught']}/{n}", flush=True)
                 with open(path, "w") as f:
                     json.dump(rates, f, indent=1, sort_keys=True)
@@ -97,10 +99,12 @@ def write_index_from_rates(rates):
         who = f"{r['caught']}/{r['seeds']}"
         if r.get("outside_the_quantifier"):
             who += " (not expected: outside the quantifier, see meta.json)"
+        elif r.get("obsolete_on_current_tree"):
+            who += " (no longer a defect on the repaired tree, see meta.json)"
         elif r["caught"] == 0:
             who = "**" + who + " missed**"
         lines.append(f"| {name} | {r['property']} | {str(r.get('needs'))[:200]} | {who} | {'; '.join(r.get('signatures') or [])[:240]} |")
-    tot = [r for n_, r in rates.items() if os.path.isdir(os.path.join(SEEDED, n_)) and not r.get("outside_the_quantifier")]
+    tot = [r for n_, r in rates.items() if os.path.isdir(os.path.join(SEEDED, n_)) and not r.get("outside_the_quantifier") and not r.get("obsolete_on_current_tree")]
     lines += ["", f"{len(tot)} changes within the quantifiers: {sum(1 for r in tot if r['caught'] == r['seeds'])} caught under every seed, "
               f"{sum(1 for r in tot if 0 < r['caught'] < r['seeds'])} under some, {sum(1 for r in tot if r['caught'] == 0)} under none."]
     with open(os.path.join(SEEDED, "INDEX.md"), "w") as f:
